@@ -162,3 +162,8 @@ EXTRA["C06"] = EXTRA.get("C06", []) + [
     M("witness-program-anywhere", "script.py", "                is_program = len(commands) == 0 and len(stack) == 2\n",
       "                is_program = len(stack) == 2\n", ["C06.20"], "witness program pushed by the ScriptSig is executed (F37 undone)"),
 ]
+
+EXTRA["C10"] = EXTRA.get("C10", []) + [
+    M("psbtout-p2sh-p2wpkh-membership", "psbt.py", "            if self.redeem_script.is_p2wpkh():\n                # p2sh-p2wpkh commits to the hash160 of the pubkey in the RedeemScript\n",
+      "            if False:\n                # p2sh-p2wpkh commits to the hash160 of the pubkey in the RedeemScript\n", ["C10.19"], "p2sh-p2wpkh output key looked up in the RedeemScript (F38 undone)"),
+]
